@@ -223,3 +223,11 @@ looked — to look less often, to batch, to rate-limit its callbacks — deliver
 after its timeout on histories whose calls are spaced just so, which a check finds only if its sleeps happen to
 bracket the constant chosen. -/
 theorem C10_the_deadlines_are_the_only_clock_state : LA.Gen.ReasmFacts.deadlinesMonotonic.length = 1 := by decide
+
+/-- What the root package reads of the process it runs in is the clock (the Reassembler's deadlines, which the model is
+given as readings), the process id (an input of SetPID) and the page size (the default receive buffer): `envReads`,
+regenerated with go/types on every run, lists the package-level functions of os, os/user, os/exec, net, runtime,
+math/rand, crypto/rand that are called, time.Now / Since / Until, file-system functions of path/filepath and process
+queries of syscall. Nothing else of the machine — processors, environment variables, files, random numbers — can
+influence what the Reassembler or the client does. -/
+theorem C10_environment_is_clock_pid_pagesize : LA.StateFacts.envOf "" = LA.StateFacts.rootEnv := by decide
